@@ -80,6 +80,13 @@ pub fn exec(adf: &mut Adf, call: usize) -> Raw {
                 }
                 hs.push(adf.bdd.not(*a));
             }
+            // the statements themselves as formulas, and combined with their conditions
+            for (i, a) in ac.iter().enumerate() {
+                let v = adf.bdd.variable(Var(i));
+                hs.push(v);
+                hs.push(adf.bdd.xor(v, *a));
+                hs.push(adf.bdd.imp(*a, v));
+            }
             Raw::Handles(hs)
         }
         _ => {
